@@ -12,6 +12,8 @@ def observe(spec, inputs):
         pts = inputs["pts"]
         nd = spec["ndim"]
         arr = numpy.array(pts[0][0] if nd == 1 else (pts[0] if nd == 2 else pts), dtype=getattr(numpy, spec.get("pdtype") or "int64"))
+        if spec.get("pclass"):
+            arr = getattr(n.pnd, spec["pclass"])(arr)
         M = numpy.asarray(M)
         if spec.get("edit"):
             # inputs["A"], inputs["b"] hold the content AFTER the edit; start from a different content, call, then edit in place
